@@ -1,5 +1,5 @@
 //! Independent reference codecs written from IEEE 1815; they share no code with the library.
-pub mod crc;
 pub mod app;
+pub mod crc;
 pub mod link;
 pub mod transport;
